@@ -14,6 +14,7 @@ import (
 	"math/big"
 	"os"
 	"strings"
+	"sync/atomic"
 	"time"
 
 	"github.com/innovationb1ue/RedisGO/resp"
@@ -30,10 +31,37 @@ type chunkReader struct {
 	chunks [][]byte
 	i      int
 	reads  int
+	// read deadlines, the way a net.Conn has them.  The environment answer explored with pause=true:
+	// the peer is slower than any deadline the reader arms - before the first chunk, between every two
+	// chunks and before the end of the stream a Read under an armed deadline fails once with a timeout.
+	// A reader that never arms a deadline (the unchanged tree) cannot observe the pauses.
+	pause     bool
+	armed     bool
+	expired   bool
+	needPause bool
+}
+
+// pollingParser: some parser run armed a read deadline (then, and only then, the paused variants
+// of every partition are run as well).
+var pollingParser atomic.Bool
+
+func (c *chunkReader) SetReadDeadline(t time.Time) error {
+	c.armed, c.expired = !t.IsZero(), false
+	if c.armed {
+		pollingParser.Store(true)
+	}
+	return nil
 }
 
 func (c *chunkReader) Read(p []byte) (int, error) {
 	c.reads++
+	if c.expired {
+		return 0, os.ErrDeadlineExceeded
+	}
+	if c.pause && c.needPause && c.armed {
+		c.needPause, c.expired = false, true
+		return 0, os.ErrDeadlineExceeded
+	}
 	for c.i < len(c.chunks) {
 		ch := c.chunks[c.i]
 		if len(ch) == 0 {
@@ -45,6 +73,7 @@ func (c *chunkReader) Read(p []byte) (int, error) {
 			c.chunks[c.i] = ch[n:]
 		} else {
 			c.i++
+			c.needPause = true
 		}
 		return n, nil
 	}
@@ -62,7 +91,9 @@ type parsed struct {
 }
 
 // runParser feeds chunks to ParseStream and drains the channel.
-func runParser(chunks [][]byte) parsed {
+func runParser(chunks [][]byte) parsed { return runParserP(chunks, false) }
+
+func runParserP(chunks [][]byte, pause bool) parsed {
 	var out parsed
 	cp := make([][]byte, len(chunks))
 	for i, c := range chunks {
@@ -70,7 +101,7 @@ func runParser(chunks [][]byte) parsed {
 	}
 	ctx, cancel := context.WithCancel(context.Background())
 	defer cancel()
-	ch := resp.ParseStream(ctx, &chunkReader{chunks: cp})
+	ch := resp.ParseStream(ctx, &chunkReader{chunks: cp, pause: pause, needPause: true})
 	timer := time.NewTimer(5 * time.Second)
 	defer timer.Stop()
 	tick := time.NewTicker(200 * time.Microsecond)
@@ -200,6 +231,7 @@ type viol struct {
 
 type result struct {
 	Runs, Streams, Distinct int
+	Paused                  int // partitions run a second time with read-deadline expiries (only for a parser that arms deadlines)
 	Cut                     int // handle-level inputs not run after three stuck handlers in the task
 	Viol                    []viol
 	Samples                 []string
@@ -469,6 +501,10 @@ func worker(tb []byte, progress func()) []byte {
 			res.Runs += partitions(b, full, maxCuts, func(chunks [][]byte, desc string) {
 				got := runParser(chunks)
 				checkWell(&res, addV, cmds, b, got, shape, desc)
+				if pollingParser.Load() {
+					res.Paused++
+					checkWell(&res, addV, cmds, b, runParserP(chunks, true), shape, desc+", the reader's own read deadline expiring before every chunk")
+				}
 			})
 			if len(res.Samples) < 2 {
 				res.Samples = append(res.Samples, fmt.Sprintf("well-formed %s (%d bytes) under every partition", fmtCmds(cmds), len(b)))
@@ -689,7 +725,7 @@ func main() {
 			tasks = append(tasks, b)
 		}
 	}
-	runs, streams, distinct, crashes, cutInputs := 0, 0, 0, 0, 0
+	runs, streams, distinct, crashes, cutInputs, paused := 0, 0, 0, 0, 0, 0
 	var samples []string
 	perKind := map[string]int{}
 	p.Map(tasks, func(tb, out []byte, crash *pool.Crash) [][]byte {
@@ -712,7 +748,8 @@ func main() {
 		}
 		var r result
 		json.Unmarshal(out, &r)
-		runs += r.Runs
+		runs += r.Runs + r.Paused
+		paused += r.Paused
 		streams += r.Streams
 		cutInputs += r.Cut
 		distinct += r.Distinct
@@ -732,11 +769,12 @@ func main() {
 	cov := map[string]interface{}{
 		"evaluations":         runs,
 		"distinct_nontrivial": distinct + streams,
-		"rule":                "well-formed: argument vectors over {CR,LF,NUL,0xFF,a,$,*,space} (all strings up to the length bound, 1-3 arguments, pipelines of 1-3 commands, one 5000-byte argument) x every partition of the encoded stream into read chunks (all 2^(L-1) when L<=16, else every partition with <= the cut bound, all-single-bytes, zero-length reads): decoded commands must equal the encoded ones. malformed: every byte string up to the length bound over {*,$,+,-,:,0,1,2,a,CR,LF} plus targeted families, alone and before/after/between PINGs: no panic, parser terminates, nothing delivered that is not a well-formed command of the input; at Handle level the connection is closed and a second connection still gets PONG. distinct_nontrivial = (stream, partition) runs decoded correctly + distinct input streams",
+		"rule":                "well-formed: argument vectors over {CR,LF,NUL,0xFF,a,$,*,space} (all strings up to the length bound, 1-3 arguments, pipelines of 1-3 commands, one 5000-byte argument) x every partition of the encoded stream into read chunks (all 2^(L-1) when L<=16, else every partition with <= the cut bound, all-single-bytes, zero-length reads; and, for a parser that arms read deadlines on its reader, every partition again with the deadline expiring before every chunk): decoded commands must equal the encoded ones. malformed: every byte string up to the length bound over {*,$,+,-,:,0,1,2,a,CR,LF} plus targeted families, alone and before/after/between PINGs: no panic, parser terminates, nothing delivered that is not a well-formed command of the input; at Handle level the connection is closed and a second connection still gets PONG. distinct_nontrivial = (stream, partition) runs decoded correctly + distinct input streams",
 		"samples":             samples,
 		"exhaustive":          crashes == 0 && cutInputs == 0,
 		"handle_inputs_cut_after_three_stuck_handlers": cutInputs,
-		"streams":         streams,
+		"streams": streams,
+		"partitions_rerun_with_read_deadline_expiries": paused,
 		"runs_per_family": perKind,
 		"worker_crashes":  crashes,
 	}
